@@ -255,6 +255,10 @@ class FlexiblePaxosNode(Entity):
 
         if ballot_number not in self._phase1_responses:
             return []
+        if self._current_ballot != Ballot(ballot_number, self.name):
+            # We have since adopted another node's (higher) ballot: the quorum for our
+            # abandoned ballot must not make us leader under the ballot we promised.
+            return []
 
         self._phase1_responses[ballot_number].append(
             {
@@ -314,6 +318,8 @@ class FlexiblePaxosNode(Entity):
 
         self._current_ballot = ballot
         self._leader = ballot.node_id
+        if ballot.node_id != self.name:
+            self._is_leader = False  # another node leads with a ballot at least as high as ours
 
         if slot > self._log.last_index + 1:
             # A later slot overtook an earlier one: hold it until the gap closes
